@@ -10,5 +10,4 @@ import (
 var reULIDc = regexp.MustCompile(`seq-db-[0-9A-HJKMNP-TV-Z]{26}`)
 var reNumc = regexp.MustCompile(`[0-9]+`)
 
-func c15Handle(raw json.RawMessage) any { return nil }
 func c19Handle(raw json.RawMessage) any { return nil }
